@@ -98,6 +98,7 @@ type Worker struct {
 	npaths    int
 	strConsts map[string]int
 	globalWriteOK map[string]bool
+	syncPools     map[string][]Val // sync.Pool model: items Put and not yet taken, per pool
 
 	// per-path state
 	objs        map[int]*Obj
@@ -199,6 +200,7 @@ func (w *Worker) resetPath(prefix []Decision) {
 	w.initThreads()
 	w.onceDone = nil
 	w.syncMaps = nil
+	w.syncPools = nil
 	w.inOnce = 0
 	w.reportedOnce = map[string]bool{}
 	w.notes = map[string]bool{}
